@@ -7,7 +7,7 @@ import impl, s_tree as T
 from impl import cminx
 
 
-def run_main(sb_dir, case, variant):
+def run_main(sb_dir, case, variant, out_mode='abs'):
     base = os.path.join(sb_dir, '+zq9_' + variant + '+'); os.makedirs(base, exist_ok=True)
     inp = case['inputs'][0]; st = case['settings']
     p = os.path.join(base, '+loc+', '+i0+', inp['name'])
@@ -38,7 +38,12 @@ def run_main(sb_dir, case, variant):
     for pt in cli_p: args += ['-e', pt]
     out_abs = None
     if case.get('output') is not None:
-        out_abs = os.path.join(base, 'out'); args += ['-o', out_abs]
+        if out_mode == 'rel':      # a relative output directory is meant relative to the directory the command runs in
+            out_abs = os.path.join(work, 'rel', 'out'); args += ['-o', os.path.join('rel', 'out')]
+        else:
+            out_abs = os.path.join(base, 'out'); args += ['-o', out_abs]
+    start_cwd = os.getcwd(); stray_before = os.path.lexists(os.path.join(start_cwd, 'rel'))
+    before = T.snapshot(base)
     old = {k: os.environ.get(k) for k in ('HOME', 'XDG_CONFIG_HOME', 'CMINXDIR')}
     os.environ['HOME'] = home; os.environ['XDG_CONFIG_HOME'] = os.path.join(home, '.config'); os.environ.pop('CMINXDIR', None)
     cwd = os.getcwd(); stdout = io.StringIO(); status = 'ok'
@@ -62,7 +67,15 @@ def run_main(sb_dir, case, variant):
         for name in ('cminx', ''):
             lg = logging.getLogger(name)
             for h in lg.handlers[:]: lg.removeHandler(h)
-    return dict(status=status, stdout=stdout.getvalue(), files=T.read_tree(out_abs) if out_abs else {})
+    after = T.snapshot(base)
+    out_rel = (os.path.relpath(out_abs, base) + os.sep) if out_abs else None
+    changed = sorted(pth for pth in set(before) | set(after) if before.get(pth) != after.get(pth)
+                     and not (out_rel and (pth.startswith(out_rel) or (pth.endswith('/') and out_rel.startswith(pth)))))
+    stray = None
+    if not stray_before and os.path.lexists(os.path.join(start_cwd, 'rel')):      # written relative to some other directory: clean up, report
+        import shutil
+        stray = os.path.join(start_cwd, 'rel'); shutil.rmtree(stray, ignore_errors=True)
+    return dict(status=status, stdout=stdout.getvalue(), files=T.read_tree(out_abs) if out_abs else {}, changed_outside=changed, stray=stray)
 
 
 def cli_suite(prop, seed, count, out, drv):
@@ -73,19 +86,23 @@ def cli_suite(prop, seed, count, out, drv):
         case = P.gen_case(g, prop)
         case['inputs'] = case['inputs'][:1]; case.pop('target', None)
         case['inputs'][0]['spelled'] = 'abs'
-        case['output'] = None if prop == 'C18' else 'abs'
+        rel_mode = n % 2 == 1      # every other case: a relative -o, which must land below the working directory and nowhere else
+        case['output'] = None if (prop == 'C18' and not rel_mode) else 'abs'
         if prop == 'C15' and len(case.get('patterns', [])) < 2: case['patterns'] = list(case.get('patterns', [])) + ['*.txt', 'b.cmake', 'sub/']
         if case['settings'].get('cfg') and case['settings']['cfg'].get('trigger') is not None: case['settings']['cfg'].pop('trigger', None)
         key = (prop, 'cli', seed, n)
         with impl.Sandbox() as sb:
             api = T.run_real(sb.dir, case, variant='api')
-            cli = run_main(sb.dir, case, 'cli')
+            cli = run_main(sb.dir, case, 'cli', out_mode='rel' if rel_mode else 'abs')
         out.traces_validated += 2; out.note_case(key, True); out.dist['cli:' + cli['status']] += 1
         rec = dict(suite='cli', key=key, case=case)
         if api['status'] != 'ok': continue
         if cli['status'] != 'ok':
             out.violations.append(dict(rec, detail=dict(kind='command line fails where the API succeeds', status=cli['status']), model_agrees=True)); continue
-        if prop == 'C18':
+        if cli.get('stray') or [c for c in cli.get('changed_outside', []) if not c.startswith('home')]:
+            out.violations.append(dict(rec, detail=dict(kind='the command line run created or changed something outside the requested output directory',
+                                                        stray=cli.get('stray'), changed=cli.get('changed_outside', [])[:6]), model_agrees=True)); continue
+        if prop == 'C18' and case['output'] is None:
             if cli['stdout'] != api['stdout']:
                 extra = [l for l in cli['stdout'].split('\n') if l not in api['stdout'].split('\n')][:5]
                 out.violations.append(dict(rec, detail=dict(kind='standard output of the command line carries more or less than the pages', extra_lines=extra,
